@@ -171,7 +171,14 @@ def main():
 
   if args.replay:
     rep = json.load(open(args.replay))
-    res = run_tasks(prop, [rep["task"]], 1, 3600, progress=False)[0]
+    rtask = dict(rep["task"])
+    hist = (rep.get("violation", {}).get("case") or {}).get("history")
+    if isinstance(hist, list) and hist and "sub" not in rtask:
+      # replay only the recorded history (and its prefixes), not the whole
+      # configuration: the plain unit-test form of the counterexample
+      rtask["only_history"] = [h for h in hist if not str(h).startswith("ax")]
+      rtask["depth"] = max(len(rtask["only_history"]), 1)
+    res = run_tasks(prop, [rtask], 1, 3600, progress=False)[0]
     if "infra_error" in res:
       print("INFRA-ERROR", res["infra_error"])
       sys.exit(3)
